@@ -164,10 +164,23 @@ func regressFields(prev, cur view) []string {
 // judgeSeq delivers the snapshots one at a time and evaluates oracles (a)-(e) exactly around every
 // delivery. wire selects the expected rendering (gRPC responses vs RegionInfo).
 func judgeSeq(t target, plan []*world.Snapshot, wire bool) ([]finding, *seqStats) {
+	fs, st, _ := judgeSeqH(t, plan, wire, nil)
+	return fs, st
+}
+
+// judgeSeqH is judgeSeq with a health probe of the harness itself: it is consulted after every
+// delivery + observation and before anything about that delivery is judged; a non-nil error stops the
+// run (nothing observed from that delivery on is judged) and is returned.
+func judgeSeqH(t target, plan []*world.Snapshot, wire bool, health func() error) ([]finding, *seqStats, error) {
 	st := &seqStats{counters: map[string]int64{}}
 	var out []finding
 	last := map[uint64]view{} // last observation of every id ever served
 	before := t.Observe()
+	if health != nil {
+		if err := health(); err != nil {
+			return nil, st, err
+		}
+	}
 	for _, x := range structural(before) {
 		out = append(out, finding{Key: x.key, What: "before the first delivery: " + x.what, Index: -1, After: before})
 	}
@@ -190,6 +203,11 @@ func judgeSeq(t target, plan []*world.Snapshot, wire bool) ([]finding, *seqStats
 			err = t.Deliver(h)
 		}()
 		after := t.Observe()
+		if health != nil {
+			if err := health(); err != nil {
+				return out, st, err
+			}
+		}
 		add := func(key, what string) {
 			out = append(out, finding{Key: key, What: fmt.Sprintf("delivery %d (%s): %s", i, h.Short(), what), Index: i, Before: before, After: after})
 		}
@@ -342,7 +360,7 @@ func judgeSeq(t target, plan []*world.Snapshot, wire bool) ([]finding, *seqStats
 		}
 		before = after
 	}
-	return out, st
+	return out, st, nil
 }
 
 // ddmin reduces plan to a 1-minimal sub-sequence on which test still holds.
